@@ -5,7 +5,7 @@ from . import smt
 from .smt import (mk_and, mk_or, mk_not, mk_eq, mk_ite, mk_concat, mk_add, mk_sub, mk_lt, mk_le,
                   mk_select, mk_store, mk_implies, str_lit, int_lit, TRUE, FALSE)
 from .types import SV, NOCONST, parse_ty, atom_kind, ANY, T_STR, T_INT, T_BOOL, T_NONE
-from .values import Unsupported, PathInfeasible, is_tag
+from .values import Unsupported, PathInfeasible, is_tag, RaisedExc
 from .calls import Return
 
 
